@@ -49,7 +49,7 @@ func parseWith(format string, data []byte, sched []iox.Step) (res, digest string
 	if len(sched) == 1 && sched[0].K == "bytes.Reader" {
 		r = bytes.NewReader(data) // the everyday reader: seekable, fills every read
 	}
-	res, msg = run.Guard(60*time.Second, func() { s, err = readDoc(format, r) })
+	res, msg = run.Guard(20*time.Second, func() { s, err = readDoc(format, r) })
 	if res != "ok" {
 		return res, "", 0, msg
 	}
@@ -210,6 +210,7 @@ func cmdFaults(args []string) error {
 	r := rand.New(rand.NewSource(*seed))
 	docs := derivedDocs(testdataDocs(), *large)
 	docs = append(docs, extraDocs(*extra)...)
+	hung := map[string]bool{}
 	for di, d := range docs {
 		if di%*parts != *part {
 			continue
@@ -228,23 +229,36 @@ func cmdFaults(args []string) error {
 			if n > *maxAll && r.Intn(n / *maxAll * 4 + 1) != 0 && p != n && p != 0 {
 				continue
 			}
-			for _, withData := range []bool{false, true} {
+			for _, lbl := range []string{"fail-after", "fail-with-data", "fail-after-unexpected-eof", "fail-with-data-unexpected-eof"} {
 				var sched []iox.Step
-				if withData {
+				switch lbl {
+				case "fail-after":
+					sched = iox.FailAt(p)
+				case "fail-with-data":
 					if p == 0 {
 						continue
 					}
 					sched = []iox.Step{{p, "fail"}} // the failing read also carries data
-				} else {
-					sched = iox.FailAt(p)
+				case "fail-after-unexpected-eof":
+					// the stream's own error value is io.ErrUnexpectedEOF (what a decompressor reports for a cut stream)
+					sched = iox.FailAtWith(p, "fail:ueof")
+				case "fail-with-data-unexpected-eof":
+					if p == 0 {
+						continue
+					}
+					sched = []iox.Step{{p, "fail:ueof"}}
+				}
+				// a call that hangs keeps spinning in its goroutine: one witness per (format, kind of fault) is recorded,
+				// the remaining offsets of that combination are not tried in this process
+				if hung[d.Fmt+"|"+lbl] {
+					continue
 				}
 				res, dg, items, msg := parseWith(d.Fmt, d.Data, sched)
+				if res == "timeout" {
+					hung[d.Fmt+"|"+lbl] = true
+				}
 				if dg == "ERR" {
 					res = "err"
-				}
-				lbl := "fail-after"
-				if withData {
-					lbl = "fail-with-data"
 				}
 				k.put(ioEvent{Kind: "readfault", Fmt: d.Fmt, Doc: d.Name, Len: n, K: p, Inside: p < end || (d.Fmt != "ttml"), Sched: lbl,
 					Res: res, Digest: dg, Items: items, Msg: msg})
